@@ -1,7 +1,7 @@
 ----------------------------- MODULE LitVectors -----------------------------
-(* Mode L vectors for typed access: every string of length <= MaxLen over Alphabet
-   plus a fixed table (letter-case variants of true/false, float forms) is one
-   initial state; TLC classifies it with Literals and checks that the classifiers
+(* Mode L vectors for typed access: every string of length 1..MaxLen over Alphabet
+   plus a fixed table (letter-case variants of true/false, float forms, vectors) is
+   one state; TLC classifies it with Literals and checks that the classifiers
    are mutually consistent; each state is exported as one conformance vector.    *)
 EXTENDS Literals, TLC, Json
 
@@ -25,9 +25,12 @@ VecTable == {"1 2 3", "1,2,3", "1, 2, 3", "-1 0 7", "1\n2\t3", " 1  2   3 ", "1 
              "1.5 2 3e1", "0.5,0.25", "1e", "7"}
 Table == VecTable \cup BoolTable \cup {p[1] : p \in FloatValid} \cup FloatOther
 
-Init == s \in AllStr \cup Table
-Next == UNCHANGED s
-Spec == Init /\ [][Next]_s
+\* two steps (first character, then the rest) so that TLC's workers share the strings
+VARIABLE done
+Init == done = FALSE /\ s \in Alphabet \cup {""}
+Next == /\ ~done /\ done' = TRUE
+        /\ s' \in IF s = "" THEN Table ELSE {s \o x : x \in UNION {StrN(k) : k \in 0..(MaxLen - 1)}}
+Spec == Init /\ [][Next]_<<s, done>>
 
 \* ---- design-level consistency of the classifiers -----------------------------
 TrimIdem == Trim(Trim(s)) = Trim(s)
@@ -44,7 +47,7 @@ FloatTableOk == /\ \A p \in FloatValid : FloatClass(p[1]) = "valid"
 
 FloatRat == IF \E p \in FloatValid : p[1] = s THEN LET p == CHOOSE q \in FloatValid : q[1] = s IN <<p[2], p[3]>> ELSE <<0, 0>>
 
-Vector == Emit => PrintT(ToJson(
+Vector == (Emit /\ done) => PrintT(ToJson(
    [s |-> s,
     b |-> BoolClass(s), bv |-> IF BoolClass(s) = "valid" THEN BoolVal(s) ELSE FALSE,
     i |-> IntClass(s), iv |-> IF IntClass(s) = "valid" THEN IntVal(s) ELSE 0,
